@@ -12,6 +12,20 @@ def fuzz(name, target, fuzztime, workers=8, timeout=None):
     return {"name": name, "kind": "fuzz", "target": target, "thorough": t}
 
 PROPS = {
+    "C04": {
+        "level": "exploration",
+        "jobs": [
+            rapid("keystore", "^TestC04$", {"checks": 8, "steps": 25, "shards": 8, "timeout": 900, "shrinktime": "30s"},
+                  {"checks": 200, "steps": 40, "shards": 14, "timeout": 5000, "shrinktime": "120s"}),
+        ],
+    },
+    "C05": {
+        "level": "exploration",
+        "jobs": [
+            rapid("keystore", "^TestC05$", {"checks": 8, "steps": 25, "shards": 8, "timeout": 900, "shrinktime": "30s"},
+                  {"checks": 200, "steps": 40, "shards": 14, "timeout": 5000, "shrinktime": "120s"}, seed_offset=3),
+        ],
+    },
     "C02": {
         "level": "exploration",
         "jobs": [
